@@ -236,9 +236,10 @@ func (r *Ref) StoredByPath() map[string]RefNode {
 
 // PathStore is a minimal path-scheme node store: path -> blob, with the hash checked on
 // every read. It implements database.NodeDatabase for one trie (owner ignored).
+// Reads are safe for concurrent use as long as nobody writes (UpdateBatch workers resolve
+// nodes concurrently); writes happen only between trie operations.
 type PathStore struct {
 	Nodes map[string][]byte
-	Reads int
 }
 
 func NewPathStore() *PathStore { return &PathStore{Nodes: map[string][]byte{}} }
@@ -246,7 +247,6 @@ func NewPathStore() *PathStore { return &PathStore{Nodes: map[string][]byte{}} }
 func (s *PathStore) NodeReader(root common.Hash) (database.NodeReader, error) { return s, nil }
 
 func (s *PathStore) Node(owner common.Hash, path []byte, hash common.Hash) ([]byte, error) {
-	s.Reads++
 	blob := s.Nodes[string(path)]
 	if len(blob) == 0 {
 		return nil, nil
